@@ -199,7 +199,8 @@ def gen(rng, tier):
           ['bad_name', 'bad_module', 'duplicate_other', 'duplicate_equal',
            'unknown_in_list', 'both_lists', 'non_list',
            'class_with_regmethod_bad_list', 'rejected_then_new',
-           'duplicate_after_stray_exit', 'plain_class_bad_list']),
+           'duplicate_after_stray_exit', 'plain_class_bad_list',
+           'bound_method_self_in_list']),
                   'n': i,
                   'target': 'T%d' % rng.randint(0, i)})
     elif r < 0.62 and r >= 0.55:
@@ -468,6 +469,19 @@ def run(case):
         elif kind == 'duplicate_other':
           gin.external_configurable(fresh_fn(op['target']), name=op['target'],
                                     module=MOD)
+        elif kind == 'bound_method_self_in_list':
+          # a bound method has no parameter `self` (its plain function, which is
+          # registered first, has)
+          gb = {'__name__': MOD}
+          exec('class ZqHolder:\n'  # pylint: disable=exec-used
+               '  def m(self, x=1):\n    return x\n', gb)
+          try:
+            gin.external_configurable(gb['ZqHolder'].m,
+                                      name='ZqPlain%d' % op['n'], module=MOD)
+          except Exception:  # pylint: disable=broad-except
+            pass
+          gin.external_configurable(gb['ZqHolder']().m, name='Zq', module=MOD,
+                                    denylist=['self'])
         elif kind == 'plain_class_bad_list':
           # a class with neither __init__ nor __new__ has no parameters a list
           # could name
